@@ -20,7 +20,7 @@ import (
 // Script is the tiny imperative program run by a thunk or a loop post.
 type Script struct {
 	Ev    int    `json:"ev"`              // event id written to the trace when the script runs
-	Op    string `json:"op,omitempty"`    // "", "inc", "reset", "panic", "rtpanic"
+	Op    string `json:"op,omitempty"`    // "", "inc", "reset", "panic", "rtpanic", "self" (log Current() of the iterator that runs the script)
 	Var   int    `json:"var,omitempty"`   // variable the op works on
 	Probe bool   `json:"probe,omitempty"` // record the call-stack depth (C17)
 }
@@ -144,6 +144,7 @@ type env struct {
 	trace    []string
 	fuel     int
 	depths   []int // stack depths recorded by probes
+	self     func() int // Current() of the iterator executing the scripts (implementation: the generator, reference: the model)
 
 	// statistics kept by the reference interpreter only (non-triviality rules)
 	maxIters int  // largest number of body executions of one loop activation
@@ -187,6 +188,12 @@ func (e *env) script(tag string, s *Script) {
 		e.x[s.Var]++
 	case "reset":
 		e.x[s.Var] = 0
+	case "self":
+		// generator code reading its own iterator while an advance is in progress: the latest successful
+		// advance is the previous one
+		if e.self != nil {
+			e.log("self=%d", e.self())
+		}
 	case "panic":
 		panic(scriptPanic{s.Ev})
 	case "rtpanic":
@@ -523,6 +530,17 @@ func transcript(e *env, g gen4, ops []Op, isDone func() bool) (out []string, pan
 		}()
 		out = append(out, fmt.Sprintf("%s -> %s | %v", op, res, e.trace[mark:]))
 		if panicked {
+			// the advance that panicked was not successful: Current still is the value delivered by the latest
+			// successful advance (C09), "the values delivered before that step are unaffected" (C18). Nothing else
+			// is asked of a panicked iterator.
+			func() {
+				defer func() {
+					if r := recover(); r != nil {
+						out = append(out, fmt.Sprintf("cur after the panic -> PANIC %v", r))
+					}
+				}()
+				out = append(out, fmt.Sprintf("cur after the panic -> %d", g.Current()))
+			}()
 			return
 		}
 	}
@@ -550,6 +568,7 @@ func runImpl(t *Term, ops []Op, fuel int) (tr []string, e *env, panicked bool) {
 	}
 	pre := fmt.Sprintf("construct | %v", e.trace)
 	g := it.(seq.Generator[int])
+	e.self = g.Current
 	// completion is only observable through the protocol: an advance reported false
 	done := false
 	w := &doneWatch{g: g, done: &done}
@@ -596,6 +615,7 @@ func runRef(t *Term, ops []Op, fuel int) (tr []string, e *env, panicked bool) {
 	if panicked {
 		return built, e, true
 	}
+	e.self = m.Current
 	defer m.co.close()
 	pre := fmt.Sprintf("construct | %v", e.trace)
 	tr, panicked = transcript(e, m, ops, func() bool { return m.done })
